@@ -165,8 +165,10 @@ deriving Repr
 
 def enqueueU (o : OState) (cmd : Nat) (user : Bool) (val : Int) (iters : Nat) : OState :=
   let u : UReq := { id := o.base.nextReq, cmd, user, val, iters, tracked := o.base.emgr.tracking }
-  let o1 := if !o.base.emgr.tracking && iters > 1 then { o with scopeViolation := true } else o
-  { o1 with um := { o1.um with queue := o1.um.queue ++ [u] }, base := { o1.base with nextReq := o1.base.nextReq + 1 } }
+  { o with scopeViolation := o.scopeViolation || (!o.base.emgr.tracking && decide (iters > 1)),
+           um := { o.um with queue := o.um.queue ++ [u] },
+           base := { o.base with nextReq := o.base.nextReq + 1,
+                                 core := if user then o.base.core.userRequest (cmd / 2) else o.base.core } }
 
 def interpItemO (o : OState) : ItemO → OState
   | .m it => { o with base := interpItem o.base it }
